@@ -425,6 +425,62 @@ impl GModel {
         })
     }
 
+    /// Shape tag: a rule can reach its return operator `&` without having consumed a token, and a repetition's body
+    /// starts with that rule: entered in the active error state the rule returns at once and the loop spins
+    /// (known finding, DESIGN §7).
+    pub fn return_without_consumption_in_loop(&self) -> bool {
+        let n = self.nullable_rules();
+        // rules with an early return
+        fn early_return(g: &GModel, r: &Rx, n: &[bool]) -> bool {
+            match r {
+                Rx::Return => true,
+                Rx::Seq(v) => {
+                    for x in v {
+                        if early_return(g, x, n) {
+                            return true;
+                        }
+                        if !g.rx_nullable(x, n) {
+                            return false;
+                        }
+                    }
+                    false
+                }
+                Rx::Alt(v) | Rx::Choice(v) => v.iter().any(|x| early_return(g, x, n)),
+                Rx::Paren(x) => early_return(g, x, n),
+                _ => false,
+            }
+        }
+        let early: Vec<bool> = self.rules.iter().map(|r| r.body.as_ref().is_some_and(|b| early_return(self, b, &n))).collect();
+        fn loops(g: &GModel, r: &Rx, n: &[bool], early: &[bool]) -> bool {
+            match r {
+                Rx::Star(x) | Rx::Plus(x) => {
+                    // transitive left corners of the body
+                    let mut seen = vec![false; g.rules.len()];
+                    let mut todo = vec![];
+                    g.left_corners(x, n, &mut todo);
+                    let mut hit = false;
+                    while let Some(i) = todo.pop() {
+                        if seen[i] {
+                            continue;
+                        }
+                        seen[i] = true;
+                        if early[i] {
+                            hit = true;
+                        }
+                        if let Some(b) = &g.rules[i].body {
+                            g.left_corners(b, n, &mut todo);
+                        }
+                    }
+                    hit || loops(g, x, n, early)
+                }
+                Rx::Seq(v) | Rx::Alt(v) | Rx::Choice(v) => v.iter().any(|x| loops(g, x, n, early)),
+                Rx::Opt(x) | Rx::Paren(x) => loops(g, x, n, early),
+                _ => false,
+            }
+        }
+        self.rules.iter().any(|r| r.body.as_ref().is_some_and(|b| loops(self, b, &n, &early)))
+    }
+
     pub fn has_choice(&self) -> bool {
         fn f(r: &Rx) -> bool {
             match r {
